@@ -19,8 +19,10 @@ META = {
     'technique': 'explicit-state BFS over sequences of system-table snapshots on a real Cluster/ControlConnection/Metadata over the virtual node, canonical-state dedup, reference mirror',
     'text': 'All sequences of up to 3 snapshots; a snapshot is a system.local row (base / other datacenter / other rack / other tokens) plus up to 3 '
             '(quick) / 5 (thorough) peer rows, each peer row one of {valid, other datacenter, other rack, other tokens, other native port, no address, no '
-            'host_id, no data_center, no rack, null tokens, empty token set} (per configuration a stated subset for the second and third peer), optionally '
-            'a second row with the endpoint of another peer or of the control node; '
+            'host_id, no data_center, no rack (these four keep their non-empty tokens), null tokens, empty token set, no host_id and null tokens, no '
+            'data_center and empty token set, no rack and null tokens} (per configuration a stated subset for the second and third peer), optionally '
+            'a second row with the endpoint of another peer or of the control node; every row that must be ignored is served both for an endpoint that '
+            'is a known host at that moment and for a new one (counters ignored_rows/...); '
             'system.peers_v2 and system.peers dialects, token metadata on and off.  After each refresh: known hosts = control node + valid distinct '
             'peers; host datacenter/rack/host_id as in the rows; listener on_add once per new host and on_remove once per vanished host, none else; '
             'for a known host whose datacenter or rack changed the load-balancing policy saw on_down then on_up with the new location; '
@@ -32,8 +34,14 @@ META = {
 
 CONTROL = 1
 PROBES = [b'a', b'b', b'c', b'd', b'e', b'f', b'g', b'h']
-ROW_KINDS = ['valid', 'dc2', 'r2', 'tokB', 'port2', 'no_addr', 'no_host_id', 'no_dc', 'no_rack', 'null_tokens', 'empty_tokens']
+# a kind 'x&y' applies both changes to the row.  no_host_id / no_dc / no_rack alone keep their (non-empty) tokens
+ROW_KINDS = ['valid', 'dc2', 'r2', 'tokB', 'port2', 'no_addr', 'no_host_id', 'no_dc', 'no_rack', 'null_tokens', 'empty_tokens',
+             'no_host_id&null_tokens', 'no_dc&empty_tokens', 'no_rack&null_tokens']
 TOKEN_KINDS = ('tokB', 'null_tokens', 'empty_tokens')
+
+
+def token_kind(kind):
+    return any(k in TOKEN_KINDS for k in kind.split('&'))
 
 
 def addr(i):
@@ -46,6 +54,12 @@ def ep(i, port=9042):
 
 def hkey(host):
     return (host.endpoint.address, host.endpoint.port)
+
+
+def nsort(items):
+    """deterministic order for values observed on the driver: a host that was wrongly accepted may carry None
+    where a valid one has a string (address, datacenter, rack, host_id), which plain tuple comparison rejects"""
+    return sorted(items, key=repr)
 
 
 def tokens(i, variant):
@@ -83,29 +97,30 @@ def peer_row(desc, v2):
     if v2:
         r['peer_port'] = 7000
         r['native_port'] = 9042
-    if kind == 'dc2':
-        r['data_center'] = 'dc2'
-    elif kind == 'r2':
-        r['rack'] = 'r2'
-    elif kind == 'tokB':
-        r['tokens'] = tokens(i, 'B')
-    elif kind == 'port2':       # the node now listens on another native port: a different endpoint (peers_v2 only)
-        r['native_port'] = 9043
-    elif kind == 'no_addr':
-        r[col] = None
-        r['peer'] = None
-    elif kind == 'no_host_id':
-        r['host_id'] = None
-    elif kind == 'no_dc':
-        r['data_center'] = None
-    elif kind == 'no_rack':
-        r['rack'] = None
-    elif kind == 'null_tokens':
-        r['tokens'] = None
-    elif kind == 'empty_tokens':
-        r['tokens'] = []
-    elif kind not in ('valid', 'dup'):
-        raise ValueError(kind)
+    for k in kind.split('&'):
+        if k == 'dc2':
+            r['data_center'] = 'dc2'
+        elif k == 'r2':
+            r['rack'] = 'r2'
+        elif k == 'tokB':
+            r['tokens'] = tokens(i, 'B')
+        elif k == 'port2':       # the node now listens on another native port: a different endpoint (peers_v2 only)
+            r['native_port'] = 9043
+        elif k == 'no_addr':
+            r[col] = None
+            r['peer'] = None
+        elif k == 'no_host_id':
+            r['host_id'] = None
+        elif k == 'no_dc':
+            r['data_center'] = None
+        elif k == 'no_rack':
+            r['rack'] = None
+        elif k == 'null_tokens':
+            r['tokens'] = None
+        elif k == 'empty_tokens':
+            r['tokens'] = []
+        elif k not in ('valid', 'dup'):
+            raise ValueError(kind)
     return r
 
 
@@ -187,7 +202,7 @@ class St(object):
 def snapshots(params):
     """the alphabet: every snapshot as plain data (local kind, ((peer index, row kind), ...))"""
     import itertools
-    kinds = [k for k in (params.get('only') or ROW_KINDS) if (params['tokens'] or k not in TOKEN_KINDS) and (params['v2'] or k != 'port2')]
+    kinds = [k for k in (params.get('only') or ROW_KINDS) if (params['tokens'] or not token_kind(k)) and (params['v2'] or k != 'port2')]
     peers = params['peers']
     simple = ['valid', 'dc2'] + (['tokB'] if params['tokens'] else [])
     local_kinds = [k for k in params.get('local_kinds', ['dc2', 'r2', 'tokB']) if params['tokens'] or k != 'tokB']
@@ -262,12 +277,12 @@ class H(explore.Harness):
         return dict((str(t.value), hkey(h)) for t, h in tm.token_to_host_owner.items())
 
     def canon(self, st):
-        hosts = tuple(sorted((a, h.datacenter, h.rack, str(h.host_id), h.is_up) for a, h in self._hosts(st).items()))
+        hosts = tuple(nsort((a, h.datacenter, h.rack, str(h.host_id), h.is_up) for a, h in self._hosts(st).items()))
         own = self._owners(st)
-        ref = tuple(sorted((a, r['dc'], r['rack'], tuple(sorted(r['tokens'] or ()))) for a, r in st.ref.items()))
-        pools = tuple(sorted(hkey(h) for h in st.session._pools))
-        live = tuple(sorted(hkey(h) for h in st.lbp._live_hosts))
-        return (hosts, tuple(sorted(own.items())) if own is not None else None, ref, pools, live,
+        ref = tuple(nsort((a, r['dc'], r['rack'], tuple(sorted(r['tokens'] or ()))) for a, r in st.ref.items()))
+        pools = tuple(nsort(hkey(h) for h in st.session._pools))
+        live = tuple(nsort(hkey(h) for h in st.lbp._live_hosts))
+        return (hosts, tuple(nsort(own.items())) if own is not None else None, ref, pools, live,
                 st.cluster.control_connection._uses_peers_v2)
 
     def check(self, st, part, hist):
@@ -277,27 +292,33 @@ class H(explore.Harness):
         lk, rows = st.snapshot
         kinds_of = {}
         for i, k in rows:
-            kinds_of.setdefault(ep(i, 9043 if k == 'port2' else 9042), []).append(k)
+            kinds_of.setdefault((None if 'no_addr' in k.split('&') else addr(i), 9043 if 'port2' in k.split('&') else 9042), []).append(k)
         kinds_of.setdefault(ep(CONTROL), []).insert(0, 'local-' + lk)
         dialect = 'peers_v2' if st.v2 else 'peers'
 
         def cls(a):
             return '+'.join(kinds_of.get(a, ['absent']))
         ctxt = '[%s, tokens %s; snapshot local=%s rows=%r; previous hosts %r]' % (
-            dialect, 'on' if st.need_tokens else 'off', lk, list(rows), sorted(st.prev_ref))
+            dialect, 'on' if st.need_tokens else 'off', lk, list(rows), nsort(st.prev_ref))
         part.outcome((len(st.ref), len(set(st.ref) - set(st.prev_ref)), len(set(st.prev_ref) - set(st.ref))))
+        # where the rows that must be ignored were served: for an endpoint that was a known host before the refresh, or a new one
+        for (i, k), row in zip(rows, st.rows):
+            if not nodelist.valid(row, st.need_tokens):
+                e = nodelist.endpoint_of(row)
+                part.count('ignored_rows/tokens-%s/%s/%s' % ('on' if st.need_tokens else 'off', k,
+                                                             'no-address' if e[0] is None else 'known-host' if e in st.prev_ref else 'new-host'))
         if len(hist) >= 2:
-            part.sample(dict(data, hosts_expected=sorted(st.ref), hosts_before=sorted(st.prev_ref)), limit=2)
+            part.sample(dict(data, hosts_expected=nsort(st.ref), hosts_before=nsort(st.prev_ref)), limit=2)
         if not st.refresh_ok:
             part.violation('C42/refresh-raised', 'refresh_node_list_and_token_map() returned False %s' % ctxt, data)
             return
         hosts = self._hosts(st)
         ref, prev = st.ref, st.prev_ref
-        for a in sorted(set(hosts) - set(ref)):
+        for a in nsort(set(hosts) - set(ref)):
             part.violation('C42/hosts/unexpected-host/%s' % cls(a), 'host %s is known but no valid distinct row describes it %s' % (a, ctxt), data)
-        for a in sorted(set(ref) - set(hosts)):
+        for a in nsort(set(ref) - set(hosts)):
             part.violation('C42/hosts/missing-host/%s' % cls(a), 'host %s has a valid row but is not known %s' % (a, ctxt), data)
-        for a in sorted(set(ref) & set(hosts)):
+        for a in nsort(set(ref) & set(hosts)):
             h, r = hosts[a], ref[a]
             if not r.get('ambiguous') and (h.datacenter, h.rack) != (r['dc'], r['rack']):
                 part.violation('C42/host-attributes/location/%s' % cls(a), 'host %s has location %r, rows say %r %s'
@@ -308,18 +329,18 @@ class H(explore.Harness):
         # announcements
         adds = [a for op, a in st.listener_events if op == 'add']
         removes = [a for op, a in st.listener_events if op == 'remove']
-        for a in sorted(set(adds) | (set(ref) - set(prev))):
+        for a in nsort(set(adds) | (set(ref) - set(prev))):
             want = 1 if (a in ref and a not in prev) else 0
             if adds.count(a) != want:
                 part.violation('C42/listener/on_add/%s/%s' % ('missing' if adds.count(a) < want else 'spurious', cls(a)),
                                'listener saw on_add(%s) %d times, expected %d %s' % (a, adds.count(a), want, ctxt), data)
-        for a in sorted(set(removes) | (set(prev) - set(ref))):
+        for a in nsort(set(removes) | (set(prev) - set(ref))):
             want = 1 if (a in prev and a not in ref) else 0
             if removes.count(a) != want:
                 part.violation('C42/listener/on_remove/%s/%s' % ('missing' if removes.count(a) < want else 'spurious', cls(a)),
                                'listener saw on_remove(%s) %d times, expected %d %s' % (a, removes.count(a), want, ctxt), data)
         # location changes reach the load-balancing policy
-        for a in sorted(set(ref) & set(prev)):
+        for a in nsort(set(ref) & set(prev)):
             new, old = (ref[a]['dc'], ref[a]['rack']), (prev[a]['dc'], prev[a]['rack'])
             if new == old or ref[a].get('ambiguous'):
                 continue
@@ -335,7 +356,7 @@ class H(explore.Harness):
             want = nodelist.owners(ref)
             chg = st.diverged_at or st.changed
             if own != want:
-                diff = sorted(set((own or {}).items()) ^ set(want.items()))
+                diff = nsort(set((own or {}).items()) ^ set(want.items()))
                 part.violation('C42/token-map/owners/stale-since-refresh-that-changed=%s' % chg,
                                'token map differs from the ring of the last snapshot in %r (diverged at a refresh that changed: %s; this refresh changed: %s) %s'
                                % (diff[:6], chg, st.changed, ctxt), data)
@@ -355,18 +376,20 @@ class H(explore.Harness):
 def configs(ctx):
     """'only' restricts the row kinds of every peer, 'only_rest' those of the peers after the first"""
     mid = ['valid', 'dc2', 'tokB', 'port2', 'no_rack', 'null_tokens']
+    single = [k for k in ROW_KINDS if '&' not in k]
     if ctx.quick:
         return [
             ('v2-tokens', dict(v2=True, tokens=True, peers=[2, 3], only_rest=['valid', 'dc2', 'tokB', 'no_rack']), 2),
-            ('v1-tokens', dict(v2=False, tokens=True, peers=[2, 3], only=['valid', 'tokB', 'no_addr', 'no_host_id', 'null_tokens'], local_kinds=['tokB']), 2),
+            ('v1-tokens', dict(v2=False, tokens=True, peers=[2, 3], only=['valid', 'tokB', 'no_addr', 'no_host_id', 'null_tokens', 'no_host_id&null_tokens'],
+                           local_kinds=['tokB']), 2),
             ('v2-notokens', dict(v2=True, tokens=False, peers=[2, 3], only_rest=['valid', 'dc2', 'no_dc']), 2),
             ('v2-tokens-3peers', dict(v2=True, tokens=True, peers=[2, 3, 4], only=['valid', 'dc2', 'no_rack'], local_kinds=[], dups=False), 2),
             ('v2-tokens-3snapshots', dict(v2=True, tokens=True, peers=[2, 3], only=['valid', 'tokB', 'no_dc'], local_kinds=['tokB', 'dc2'], dups=False), 3),
         ]
     return [
-        ('v2-tokens-2peers', dict(v2=True, tokens=True, peers=[2, 3], two_dups=True, dup_first=True), 3),
+        ('v2-tokens-2peers', dict(v2=True, tokens=True, peers=[2, 3], only_rest=single, two_dups=True, dup_first=True), 3),
         ('v2-tokens', dict(v2=True, tokens=True, peers=[2, 3, 4], only=mid, two_dups=True), 3),
-        ('v1-tokens-2peers', dict(v2=False, tokens=True, peers=[2, 3], two_dups=True, dup_first=True), 3),
+        ('v1-tokens-2peers', dict(v2=False, tokens=True, peers=[2, 3], only_rest=single, two_dups=True, dup_first=True), 3),
         ('v1-tokens', dict(v2=False, tokens=True, peers=[2, 3, 4], only=['valid', 'dc2', 'tokB', 'no_addr', 'no_host_id', 'empty_tokens'], dups=False), 3),
         ('v2-notokens', dict(v2=True, tokens=False, peers=[2, 3, 4], only=['valid', 'dc2', 'r2', 'port2', 'no_dc', 'no_host_id'], two_dups=True), 3),
         ('v1-notokens', dict(v2=False, tokens=False, peers=[2, 3], two_dups=True, dup_first=True), 3),
